@@ -188,7 +188,7 @@ def gen_c04_store(shape, p, op, tier):
     a = L.append
     pstr = "/".join(p)
     what = "pget" if op == "get" else "pdelete"
-    a(f'// @h props=C04,C01,C17 tier={tier} cap=400 desc="{what} {pstr} on shape {{{", ".join(k for k in M if k in shape)}}}: result set equals the documented wildcard relation; values as stored" bounds="pattern {pstr}; keys over {{a,b}} depth<=2; values Bool; versions u64"')
+    a(f'// @h props=C04,C17 tier={tier} cap=400 desc="{what} {pstr} on shape {{{", ".join(k for k in M if k in shape)}}}: result set equals the documented wildcard relation; values as stored" bounds="pattern {pstr}; keys over {{a,b}} depth<=2; values Bool; versions u64"')
     a("#[kani::proof]")
     a("#[kani::unwind(4)]")
     if not legal(p):
